@@ -152,6 +152,13 @@ impl GitDiff {
 
         let mut staged_files = HashSet::new();
         for entry in index.entries() {
+            // Symbolic links and submodules are skipped here exactly as on the HEAD side:
+            // only regular files are tracked.
+            if entry.mode != gix::index::entry::Mode::FILE
+                && entry.mode != gix::index::entry::Mode::FILE_EXECUTABLE
+            {
+                continue;
+            }
             let path_str = String::from_utf8_lossy(entry.path(&index)).to_string();
             let path = PathBuf::from(&path_str);
 
